@@ -144,7 +144,7 @@ func c05GenType(r *Rand, depth int, structs []*sigT) *sigT {
 var c05StructNames = []string{"Point", "Item", "Config_2", "record", "Node9", "Pair", "T", "Info"}
 var c05MemberNames = []string{"x", "y", "name", "value", "uid", "zed", "a", "b", "count_1", "Label", "inner", "data2"}
 var c05ParamNames = []string{"alpha", "beta", "gamma", "delta", "count", "label", "items", "table", "flag", "x1", "y_2",
-	"Zed", "camelCase", "with_underscore", "a", "b", "n", "value", "data", "key", "id", "index"}
+	"Zed", "camelCase", "with_underscore", "a", "b", "n", "val", "data", "key", "id", "index"}
 var c05ActionNames = []string{"echo", "compute", "fetchAll", "store", "ping", "transform", "run2", "Merge", "clear_all",
 	"lookup", "apply", "reset", "send", "resolve", "tick", "changed", "level", "position", "mode", "state_1", "Counter",
 	"threshold", "alarm", "progress"}
@@ -176,6 +176,10 @@ func c05GenPkg(r *Rand) *c05Pkg {
 	if small {
 		ni = 1
 	}
+	// action names are distinct in the whole package: a signal or property with several parameters
+	// declares a struct of its name (listed finding struct-name-collision)
+	aperm := permN(r, len(c05ActionNames))
+	anext := 0
 	iperm := permN(r, len(c05ItfNames))
 	for i := 0; i < ni; i++ {
 		itf := c05Itf{name: c05ItfNames[iperm[i]]}
@@ -183,9 +187,9 @@ func c05GenPkg(r *Rand) *c05Pkg {
 		if small {
 			na = 1 + r.Intn(2)
 		}
-		aperm := permN(r, len(c05ActionNames))
-		for j := 0; j < na; j++ {
-			a := c05Action{name: c05ActionNames[aperm[j]]}
+		for j := 0; j < na && anext < len(aperm); j++ {
+			a := c05Action{name: c05ActionNames[aperm[anext]]}
+			anext++
 			pperm := permN(r, len(c05ParamNames))
 			np := 0
 			switch k := r.Intn(10); {
@@ -729,6 +733,8 @@ var c05Known = []struct{ id, what, idl string }{
 	{"param-err", "a parameter named err", "package gen\ninterface A\n\tfn f(err: int16)\nend\n"},
 	{"param-ret", "a parameter named ret", "package gen\ninterface A\n\tfn f(ret: int16) -> int16\nend\n"},
 	{"param-fmt", "a parameter named like an imported package (fmt)", "package gen\ninterface A\n\tfn f(fmt: int32, bytes: str)\nend\n"},
+	{"param-value", "a parameter named like an imported package (value)", "package gen\ninterface A\n\tfn f(value: uint64) -> any\nend\n"},
+	{"struct-name-collision", "two interfaces with a property of several parameters and the same name", "package gen\ninterface A\n\tprop lookup(count: int32, index: uint8)\nend\ninterface B\n\tprop lookup(label: str, index: uint8, n: uint16)\nend\n"},
 	{"param-keyword", "a parameter named like a Go keyword (type)", "package gen\ninterface A\n\tfn f(type: int16)\nend\n"},
 	{"signal-param-p", "a signal parameter named p", "package gen\ninterface A\n\tsig s(p: int16)\nend\n"},
 	{"signal-param-buf", "a signal parameter named buf", "package gen\ninterface A\n\tsig s(buf: int16)\nend\n"},
@@ -780,6 +786,10 @@ func c05Corpus() []*c05Pkg {
 		// type/basic used only through text: the import was missing
 		one("A", c05Action{kind: "fn", name: "run", ret: sc('s')}),
 		one("A", c05Action{kind: "fn", name: "run", params: []c05Param{par("a", vec(sc('m')))}}),
+		// a returned value without content
+		one("A", c05Action{kind: "fn", name: "run", params: []c05Param{par("a", sc('C'))}, ret: tup()}),
+		// a list or a map of elements without content: the loop variable was unused
+		one("A", c05Action{kind: "sig", name: "tick", params: []c05Param{par("a", &sigT{kind: '{', elems: []*sigT{sc('c'), tup()}}), par("b", vec(tup()))}}),
 	}
 }
 
